@@ -33,8 +33,9 @@ def zb(x): return to_z3_bool(x)
 
 def install_handshake(ex, db, st):
     c04.install(ex); coro.install_futures(ex)
-    ex.model(r'zksync_consensus_network::noise::stream::Stream::id', lambda e, n, a: Opaque(z3.Int('my_session')))
-    ex.model(r'<zksync_consensus_crypto::keccak256::Keccak256 as zksync_consensus_crypto::(fmt::)?ByteFmt>::encode', lambda e, n, a: Opaque(deref_all(a[0]).tag))
+    # session ids are byte strings; the real 32-byte noise id is scaled to SID_LEN symbolic bytes
+    ex.model(r'zksync_consensus_network::noise::stream::Stream::id', lambda e, n, a: Opaque('my_session_hash'))
+    ex.model(r'<zksync_consensus_crypto::keccak256::Keccak256 as zksync_consensus_crypto::(fmt::)?ByteFmt>::encode', lambda e, n, a: VecV(my_session_bytes()))
     ex.model(r'zksync_consensus_network::noise::stream::Stream::stats', lambda e, n, a: Opaque('stats'))
     ex.model(r'zksync_concurrency::ctx::Ctx::(with_timeout|with_deadline)', lambda e, n, a: Opaque('ctx'))
 
@@ -74,6 +75,13 @@ def install_handshake(ex, db, st):
     ex.model(r'zksync_consensus_roles::node::messages::Signed::<.*>::verify', node_signed_verify)
 
 
+SID_LEN = 2
+
+
+def my_session_bytes():
+    return [Num(z3.Int(f'my_session_b{i}'), 8) for i in range(SID_LEN)]
+
+
 def check_handshake(rep, db, which, side):
     ex = Exec(db, loop_bound=12)
     cur = [None]
@@ -85,14 +93,20 @@ def check_handshake(rep, db, which, side):
 
     def body(ex):
         st = dict(io_ok=True, sent=None); cur[0] = st
-        g0 = z3.Int('g0'); g_in = z3.Int('g_in'); sid_in = z3.Int('sid_in'); sid_signed = z3.Int('sid_signed')
+        g0 = z3.Int('g0'); g_in = z3.Int('g_in')
+        # the session id the peer sent: 0..SID_LEN+1 symbolic bytes; the one its signature really covers: same length, own bytes
+        L = ex.choose(SID_LEN + 2, 'sid_len')
+        in_b = [Num(z3.Int(f'sid_in_b{i}'), 8) for i in range(L)]; sg_b = [Num(z3.Int(f'sid_signed_b{i}'), 8) for i in range(L)]
+        for x in in_b + sg_b + my_session_bytes(): ex.assume(z3.And(x.e >= 0, x.e < 256))
+        sid_is_mine = z3.And(z3.BoolVal(L == SID_LEN), *[a.e == b.e for a, b in zip(in_b, my_session_bytes())]) if L == SID_LEN else z3.BoolVal(False)
+        signed_is_sent = z3.And(*[a.e == b.e for a, b in zip(in_b, sg_b)]) if L else z3.BoolVal(True)
         ki = KEYS[ex.choose(3, 'claimed_key')]
         sig_ok = z3.Bool('sig_by_key_owner')
         roles = 'validator' if which == 'consensus' else 'node'
         hs_t = mkn.ty(rf'zksync_consensus_network::{which}::handshake::Handshake')
         sid_t = None
-        sid = Agg('adt', 'SessionId', 0, [Opaque(sid_in)])
-        signed_sid = Agg('adt', 'SessionId', 0, [Opaque(sid_signed)])
+        sid = Agg('adt', 'SessionId', 0, [VecV(in_b)])
+        signed_sid = Agg('adt', 'SessionId', 0, [VecV(sg_b)])
         keyv = Opaque(('key', ki))
         # the `Signed` value: typed when the type table knows it (fields by name), else positional (msg, key, sig)
         try:
@@ -116,7 +130,7 @@ def check_handshake(rep, db, which, side):
         if len(args) != rec['body']['arg_count']:
             raise Unmodelled(f'{which}::handshake::{side} signature changed ({rec["body"]["arg_count"]} args)')
         r = coro.run_async(ex, key, args)
-        genuine = z3.And(g_in == g0, sid_in == z3.Int('my_session'), sig_ok, sid_signed == sid_in)
+        genuine = z3.And(g_in == g0, sid_is_mine, sig_ok, signed_is_sent)
         if side == 'outbound': genuine = z3.And(genuine, z3.BoolVal(ki == 'peer'))
         return r, genuine, ki, st
     res = explore(ex, body, budget_s=600); rep.absorb_stats(ex.stats)
@@ -318,4 +332,9 @@ def run(rep, db, tier, seed):
     handle('PoolWatch::insert one step', check_pool, 'insert', False)
     handle('PoolWatch::remove one step', check_pool, 'remove', False)
     handle('PoolWatch::insert with an interfering insert', check_pool, 'insert', True)
+    try:
+        from props import c12_lifecycle
+        c12_lifecycle.run(rep, db, tier)
+    except Exception as u:
+        rep.add(Obligation('connection life cycle', 'inconclusive', f'{type(u).__name__}: {u}'[:600]))
     rep.extra['explanation'] = 'acceptance condition of the four handshake functions and one-step pool obligations on the real MIR, for all symbolic handshake messages / pool states within the bound'
